@@ -3,7 +3,8 @@ from . import cfggen
 
 PKG_ALIASES = {"al": "gv.test/fix/alpha", "ot": "example.com/other"}
 CTORS = ["NewA", "NewB", "MakeC", "al.NewA", "al.Build", "ot.Provide", "\"example.com/lib\".New"]
-LITS = [0, 1, -7, 42, True, False, None, 1.5, "", "plain", "two words", "1", "true", "é\"q\"\\", cfggen.Raw("18446744073709551615"), cfggen.Raw("-9223372036854775808")]
+LITS = [0, 1, -7, 42, True, False, None, 1.5, "", "plain", "two words", "1", "true", "é\"q\"\\", cfggen.Raw("18446744073709551615"), cfggen.Raw("-9223372036854775808"),
+        cfggen.Raw("3.141592653589793"), cfggen.Raw("16777217.0"), cfggen.Raw("1e300"), cfggen.Raw("0.1"), cfggen.Raw("1e-7"), cfggen.Raw("-2.2250738585072014e-308")]
 
 
 class RtGen:
